@@ -44,7 +44,9 @@ def infer_state_of(state_var: SSAValue) -> State:
             yield_op = for_op.body.block.last_op
             assert isinstance(yield_op, scf.YieldOp)
             assert state_var in for_op.results  # this must be true because state_var.owner == for_op
-            return infer_state_of(yield_op.operands[for_op.results.index(state_var)])
+            idx = for_op.results.index(state_var)
+            # the loop may run zero times, in which case the result is the initial value
+            return state_intersection(infer_state_of(yield_op.operands[idx]), infer_state_of(for_op.iter_args[idx]))
         case Block() as block:
             match block.parent_op():
                 case scf.ForOp() as for_op:
